@@ -43,6 +43,8 @@ Failed(e) ==
         \* service, which supplies nothing but function names, looks at the has-functions flag alone)
         leftalone_partly |-> e.force \/ e.remote \/ \A i \in DOMAIN b.locs :
                          (b.locs[i].map # 0 /\ (MapOf(b, b.locs[i].map).hasfile \/ MapOf(b, b.locs[i].map).hasline)) => a.locs[i].lines = b.locs[i].lines,
+        \* the remote service is only asked about locations without any line: what a location already has stays
+        remote_keeps_lined |-> e.force \/ e.mode # "remote" \/ \A i \in DOMAIN b.locs : Len(b.locs[i].lines) > 0 => a.locs[i].lines = b.locs[i].lines,
         \* symbol information is only ever attached: a location never loses its lines
         attached |-> \A i \in DOMAIN b.locs : Len(b.locs[i].lines) > 0 => Len(a.locs[i].lines) > 0,
         none     |-> e.none => (a = b) ]
